@@ -15,6 +15,8 @@ def plan(tier):
     return p
 
 def main(tier):
-    return pcommon.run_plan('C01', tier, plan(tier), ('C01.',), NEED)
+    # two-client interleavings with challenge-response flows, judged by the observer (a query carrying the tag of a client that is gone ...)
+    from . import c07
+    return pcommon.run_plan('C01', tier, plan(tier), ('C01.',), NEED, pre_cov=lambda run: c07.direct_differential(run, tier, prefixes=('C01.',)))
 
 replay = pcommon.replay
